@@ -229,8 +229,9 @@ Proof.
   assert (NU : forall w0, RJ w0 (fold_left (fun w1 u => signal f nw false w1 u) (d_up (getd w0 d)) w0)).
   { intro w0. apply RJ_fold. intros; apply IH. }
   assert (SW : RJ w (fold_left (fun w1 u => signal f nw false w1 u)
-                               (d_up (getd (updd w d (dev_set_wait nw true false)) d)) (updd w d (dev_set_wait nw true false)))).
-  { jdev w d (dev_set_wait nw true false) (fun _ : dev => True); [exact I|apply NU]. }
+                               (d_up (getd (wait_if_empty nw w d) d)) (wait_if_empty nw w d))).
+  { unfold wait_if_empty. destruct (d_part (getd w d)); [apply NU|]. destruct (d_out (getd w d)); [apply NU|].
+    jdev w d (dev_set_wait nw true false) (fun _ : dev => True); [exact I|apply NU]. }
   destruct m.
   - destruct (d_kind x); try apply NU; try exact SW.
     + destruct (inf_ltb (d_level x) (d_capacity x)); [exact SW|Jt].
